@@ -196,7 +196,8 @@ type xattr struct {
 	val                  string
 }
 
-// DOCTYPE body piece: kind 0 = one plain byte, 1 = double-quoted literal, 2 = '[' inner ']'
+// DOCTYPE body piece: kind 0 = one plain byte, 1 = double-quoted literal, 2 = '[' inner ']',
+// 3 = single-quoted literal
 type xpiece struct {
 	kind  int
 	c     byte
@@ -384,21 +385,29 @@ func dtPlain(s string) []xpiece {
 	return out
 }
 
+// c11DtLit: a literal in double or single quotes; its content may contain '>' '[' ']' and the other quote.
+func c11DtLit(r *Rng, content string) xpiece {
+	if r.Bool() {
+		return xpiece{kind: 1, s: strings.ReplaceAll(content, "\"", "'")}
+	}
+	return xpiece{kind: 3, s: strings.ReplaceAll(content, "'", "\"")}
+}
+
 // addDoctype: name, optional external id, optional internal subset with declarations whose
-// double-quoted literals may contain '>' and brackets. Only constructs both quote-tracking rules
-// (the lexer's: '"' only) agree on are generated here; the others are in c11HardDocs.
+// literals (either quote style) may contain '>', brackets and the other quote.  Comments and
+// processing instructions inside the subset are in c11HardDocs.
 func (b *xbuilder) addDoctype(root string) {
 	r := b.r
 	ps := dtPlain(genXMLWS(r, true) + root)
 	switch r.Intn(3) {
 	case 1:
 		ps = append(ps, dtPlain(" SYSTEM ")...)
-		ps = append(ps, xpiece{kind: 1, s: r.PickStr([]string{"a.dtd", "x>y", "a[b]", "it's", ""})})
+		ps = append(ps, c11DtLit(r, r.PickStr([]string{"a.dtd", "x>y", "a[b]", "it's", "", "x\"y", "]>", "['"})))
 	case 2:
 		ps = append(ps, dtPlain(" PUBLIC ")...)
-		ps = append(ps, xpiece{kind: 1, s: "-//W3C//DTD X//EN"})
+		ps = append(ps, c11DtLit(r, "-//W3C//DTD X//EN"))
 		ps = append(ps, dtPlain(" ")...)
-		ps = append(ps, xpiece{kind: 1, s: r.PickStr([]string{"a.dtd", "x>y", "]>"})})
+		ps = append(ps, c11DtLit(r, r.PickStr([]string{"a.dtd", "x>y", "]>", "x\"y", "[it's"})))
 	}
 	if r.Bool() {
 		ps = append(ps, dtPlain(genXMLWS(r, false))...)
@@ -406,12 +415,16 @@ func (b *xbuilder) addDoctype(root string) {
 		decl := func(pre, lit, post string) {
 			inner = append(inner, dtPlain(pre)...)
 			if lit != "\x00" {
-				inner = append(inner, xpiece{kind: 1, s: lit})
+				inner = append(inner, c11DtLit(r, lit))
 			}
 			inner = append(inner, dtPlain(post)...)
 		}
 		for k := r.Intn(4); k > 0; k-- {
-			switch r.Intn(10) {
+			switch r.Intn(12) {
+			case 10:
+				decl("<!ENTITY j ", "]\">[", ">")
+			case 11:
+				decl("<!ENTITY k ", "'", ">")
 			case 0:
 				decl("<!ELEMENT a (#PCDATA)>", "\x00", "")
 			case 1:
@@ -508,6 +521,8 @@ func renderPieces(ps []xpiece) string {
 			sb.WriteString("\"" + p.s + "\"")
 		case 2:
 			sb.WriteString("[" + renderPieces(p.inner) + "]")
+		case 3:
+			sb.WriteString("'" + p.s + "'")
 		}
 	}
 	return sb.String()
@@ -658,9 +673,9 @@ func mutateXML(r *Rng, src []byte) []byte {
 	return b
 }
 
-// repoTestStrings returns the string literals of the package's own test file (the ~70 spellings the
+// c11RepoTestStrings returns the string literals of the package's own test file (the ~70 spellings the
 // suite pins); they seed the correspondence together with all their truncations.
-func repoTestStrings(path string) []string {
+func c11RepoTestStrings(path string) []string {
 	fset := token.NewFileSet()
 	f, err := parser.ParseFile(fset, path, nil, 0)
 	if err != nil {
@@ -682,7 +697,7 @@ func repoTestStrings(path string) []string {
 
 func xmlGen(r *Rng, tier string, emit func(Case)) {
 	// (0) the spellings of xml/lex_test.go and every truncation of them
-	for _, s := range repoTestStrings("/repo/xml/lex_test.go") {
+	for _, s := range c11RepoTestStrings(repoRoot+"/xml/lex_test.go") {
 		emit(xmlCase([]byte(s), 2, "suite"))
 		for j := 1; j < len(s) && j < 120; j++ {
 			emit(xmlCase([]byte(s[:j]), 1, "suite-trunc"))
